@@ -23,7 +23,7 @@
 (* all lines consumed, last case complete, no bad case (POSTCONDITION      *)
 (* Accepted, -workers 1).                                                  *)
 (***************************************************************************)
-EXTENDS FontCycleOps, SequencesExt
+EXTENDS FontCycleOps, SequencesExt, FiniteSetsExt
 
 Trace == ndJsonDeserialize("trace.ndjson")
 
@@ -195,6 +195,9 @@ Clause == IF IsGen(1) THEN "roundtrip" ELSE IF IsGen(2) THEN "fixedpoint"
           ELSE IF IsFirst THEN "bytes" ELSE IF IsAgain THEN "rewrite"
           ELSE IF Is("fail") THEN "fail" ELSE "protocol"
 
+\* one string per bad case (TLC wraps long tuples over several lines, but not a string)
+JoinSet(S) == FoldSet(LAMBDA x, acc : IF acc = "" THEN x ELSE acc \o "," \o x, "", S)
+
 Live == l <= Len(Trace) /\ ph # "skip"
 Good == Live /\ Why = {}
 
@@ -230,7 +233,7 @@ FileAgain ==
 \* a line the property does not allow: report, then skip the rest of the case
 MarkBad ==
   /\ l <= Len(Trace) /\ ph # "skip" /\ Why # {}
-  /\ PrintT(<<"BADCASE", E.case, l, Clause, Why>>)
+  /\ PrintT(<<"BADCASE|" \o ToString(E.case) \o "|" \o ToString(l) \o "|" \o Clause \o "|" \o JoinSet(Why)>>)
   /\ TLCSet(3, TLCGet(3) + 1)
   /\ (TLCGet(4) = 0 => TLCSet(4, l))
   /\ ph' = "skip"
